@@ -64,3 +64,6 @@ func (vx *Vaxis) VerifCaps() map[string]bool {
 		"explicitWidth": c.explicitWidth,
 	}
 }
+
+// VerifGwidth re-exports gwidth: method 0 wcwidth, 1 noZWJ, 2 unicodeStd
+func VerifGwidth(s string, method int) int { return gwidth(s, graphemeWidthMethod(method)) }
